@@ -24,6 +24,7 @@ var c16Plan = []planEntry{
 	{spaces.XHTML, 5, 6},
 	{spaces.XEol, 5, 6},
 	{spaces.B, 5, 6},
+	{spaces.XNulRef, 6, 7},
 }
 
 func init() {
